@@ -13,6 +13,7 @@ routed to the field of their own type.
 Also decided: both TickArraysMut::load wrappers propagate loader errors and skip the upper array only for the
 same account;
 Also decided: every `#[instruction(..)]` list agrees position by position (names and types) with the entry's arguments.
+Also decided: the Pinocchio verify_address helper refuses exactly when its two whole keys differ.
 Not decided: the run-time behaviour of the Anchor / SPL checks themselves."""
 import re
 from analysis import cfg, atoms as A, preach, pino, program, accounts as ACC, writes
